@@ -21,6 +21,11 @@
 //	    returned/parked from goroutine states + TryLock probes of arqMapLock, waitingQueriesLock,
 //	    rqsLock after every call, compared with the lock-level model (QueryLife.exec) in Coq;
 //	    oracle: calls that concern only other queries return while the receiver is absent.
+//	(2c) metrics life cycle (metrics.go): real PromQL requests through ExecuteMultipleMetricsQuery /
+//	    ExecuteMetricsQuery with a cancel or the real 1 s timeout at imposed moments (waiting, gate k of
+//	    the search of selector i, after the answer) or raced; oracle: answered, no table entry, no state
+//	    manager goroutine, no watcher, the slot is free again; imposed schedules compared with the model
+//	    MetricsLife in Coq at every checkpoint.
 //	(3) end-to-end: hundreds of short real queries over a small ingested data set with
 //	    cancels at random points and MAX_RUNNING_QUERIES = 2; afterwards both tables must be
 //	    empty and the goroutine population is compared with the baseline (observed only).
@@ -1898,6 +1903,10 @@ func main() {
 			workerWedge(a[1])
 		case "locks":
 			workerLocks(a[1], a[2])
+		case "mlife":
+			workerMLife(a[1], a[2])
+		case "mldebug": // replay aid: every log line of one `ml_a + ml_b` request
+			mlDebug(a[1])
 		case "e2e":
 			var seed uint64
 			var n int
@@ -2134,6 +2143,8 @@ func main() {
 		nLockMain, nLockTimeout, nLockKnown = 1200, 24, 24
 	}
 	lockRes := runLockStream(r.Fork(), wdir, nLockMain, nLockTimeout, nLockKnown, func(f func()) { spawn(f) })
+	// metrics requests (PromQL): cancel / timeout at every moment of their life cycle
+	mlRes := runMLStream(r.Fork(), wdir, cfg.Thorough(), func(f func()) { spawn(f) })
 	var famRes, famKnownRes famResult
 	spawn(func() { famRes = runFamily(wdir, "main", famMain) })
 	// the real substr on the exhaustive grid start -3..8 x length none,-8..8 x 10 strings of 0..8 bytes
@@ -2360,6 +2371,9 @@ func main() {
 
 	// ---- lock scenarios ----
 	evalLockStream(sum, cfg.Out, wdir, lockRes)
+
+	// ---- metrics life cycle ----
+	evalMLStream(sum, cfg.Out, mlRes)
 
 	// ---- wedge (known class, own process) ----
 	if wedgeOK {
